@@ -38,7 +38,7 @@ func init() {
 	run.Register(&run.Check{
 		ID:    "C18",
 		Level: "fault_enumeration",
-		Rule: "inject cases: a generated program (plus a fixed suffix that runs callbacks inside forEach/map/sort/replace/JSON.parse reviver/getter/toString, with, eval, labelled loops, try/finally) is dry-run with a self-re-arming interrupt function to number its N polling steps; then for every k (all k when N <= 300, else 300 stratified) a fresh runtime is interrupted by a panic at step k and checked: Run unwinds with exactly that panic, the host-call trace and the global $fuel counter equal the dry-run prefix at step k, scope depth and pending labels are zero, a fixed probe script still gives its known result; hostpanic cases do the same for a panic raised by the host function at its j-th call; exit cases: uncaught exception and stack-limit RangeError; prompt cases: poll-free loop shapes armed from another goroutine with a control runtime; limit cases: plain nesting depth d around limit L must succeed iff d < L. Non-trivial = injections that landed while a try, labelled statement, with, eval or native callback was active (recorded by markers), distinct by (program, k)",
+		Rule:  "inject cases: a generated program (plus a fixed suffix that runs callbacks inside forEach/map/sort/replace/JSON.parse reviver/getter/toString, with, eval, labelled loops, try/finally) is dry-run with a self-re-arming interrupt function to number its N polling steps; then for every k (all k when N <= 300, else 300 stratified) a fresh runtime is interrupted by a panic at step k and checked: Run unwinds with exactly that panic, the host-call trace and the global $fuel counter equal the dry-run prefix at step k, scope depth and pending labels are zero, a fixed probe script still gives its known result; hostpanic cases do the same for a panic raised by the host function at its j-th call; exit cases: uncaught exception and stack-limit RangeError; prompt cases: poll-free loop shapes armed from another goroutine with a control runtime; limit cases: plain nesting depth d around limit L must succeed iff d < L. Non-trivial = injections that landed while a try, labelled statement, with, eval or native callback was active (recorded by markers), distinct by (program, k)",
 		Assumptions: []string{
 			"step numbering is the interpreter's own polling order; the dry run and the injected run execute the same deterministic program, so step k denotes the same point",
 			"promptness verdicts use a 10 s watchdog only together with a control runtime armed at the same instant (violation only if the control was interrupted and the target was not)",
